@@ -6,7 +6,8 @@ def run(ctx):
     ctx.prove(ctx.theorems())
     ctx.build_harness()
     atomic = litmus.race_family(ctx.seed, ctx.quick)
-    sync = families.race_sync_family(ctx.seed, ctx.quick)
+    from gen import corpus
+    sync = list(dict.fromkeys(corpus.corpus('C04') + families.race_sync_family(ctx.seed, ctx.quick)))
     programs = atomic + sync
     ctx.assumptions.append("happens-before of the reference semantics: Spec/RC11.lean for atomics and fences, the "
                            "textbook vector clocks of Spec/SC.lean for locks, channels, notify, park/unpark, join")
